@@ -264,7 +264,7 @@ Proof.
   split; [vm_compute; reflexivity|].
   split; [apply coveredb_spec; vm_compute; reflexivity|].
   split.
-  { repeat constructor. cbn. intros [H|[]]. discriminate H. }
+  { repeat constructor; cbn; intuition discriminate. }
   repeat split; vm_compute; reflexivity.
 Qed.
 
